@@ -777,9 +777,10 @@ structure TaskFits (cfg : Cfg) (thr : Nat) (sfx : String) (h : Hint) (w : World)
       transfer.rs: `Ok(None)` for directories) does nothing, the entry level runs `mkdirAll`;
       the planner never emits such a task (`plan_no_update_dir`) -/
   noUpdateDir : t.act = .update → t.payload ≠ .dir
-  /-- with `-H`, the task is not a later member of a source hard-link group: those are linked to the
-      first member's destination (`linkFile`/`relinkFile`), which the step level does not model -/
-  noLinkMember : ∀ m n, t.payload = .file m n → cfg.hardlinks = true → 1 < n →
+  /-- with `-H`, a task that WRITES (create / update) is not a later member of a source hard-link
+      group: those are linked to the first member's destination (`linkFile`/`relinkFile`), which the
+      step level does not model.  (Skips and deletes never consult the link map.) -/
+  noLinkMember : t.writes → ∀ m n, t.payload = .file m n → cfg.hardlinks = true → 1 < n →
     w.linkMap.find? (·.1 == m.ino) = none
 
 theorem dirSteps_eq_chain {p : Path} (hp : p ≠ []) : dirSteps p = mkdirChain p ++ [Step.mkdir p] := by
@@ -886,7 +887,7 @@ theorem task_refines {cfg : Cfg} {thr : Nat} (ch : Nat) {sfx : String} {h : Hint
             simp only [List.singleton_append]
             rw [hunl, ofMap_apply, hdp, hg]; simp [Step.path, Step.nodeFn, embed]
     | file m n =>
-      rw [taskDst_eq_getD, perform_file _ _ _ hw hdry m n hpay (hf.noLinkMember m n hpay)]
+      rw [taskDst_eq_getD, perform_file _ _ _ hw hdry m n hpay (hf.noLinkMember hw m n hpay)]
       rcases fileSteps_shape (thr := thr) (ch := ch) (sfx := sfx) (h := h) (old := w.dst.get? t.rel)
           hpay hdry hw with ⟨T, hT, hL⟩ | ⟨T, d0, hold, hT, hL⟩ | ⟨d0, hold, hu, hL⟩
       · rw [hL, hchain]
@@ -1020,7 +1021,7 @@ theorem writeSymlink_shape (w : World) (p : Path) (text : String) :
     prefixes of that prefix — into a directory, or rewrites its own path, or removes what is at or
     below its path. -/
 theorem taskDst_effect (cfg : Cfg) (w : World) (t : Task)
-    (hl : ∀ m n, t.payload = .file m n → cfg.hardlinks = true → 1 < n →
+    (hl : t.writes → ∀ m n, t.payload = .file m n → cfg.hardlinks = true → 1 < n →
       w.linkMap.find? (·.1 == m.ino) = none) (x : Path) :
     (taskDst cfg w t).get? x = w.dst.get? x ∨
     (t.writes ∧ isPrefix x t.rel = true ∧ (x ≠ t.rel ∨ t.payload = .dir) ∧
@@ -1084,7 +1085,7 @@ theorem taskDst_effect (cfg : Cfg) (w : World) (t : Task)
     | file m n =>
       have hnd : t.payload ≠ .dir := by rw [hpay]; simp
       have he : taskDst cfg w t = ((writeFile cfg w t.rel m).map (·.dst)).getD w.dst := by
-        rw [taskDst_eq_getD, perform_file _ _ _ hw hdry m n hpay (hl m n hpay)]
+        rw [taskDst_eq_getD, perform_file _ _ _ hw hdry m n hpay (hl hw m n hpay)]
       rcases writeFile_shape cfg w t.rel m with h | ⟨d, v, hd, h⟩
       · left; rw [he, h]; rfl
       · rw [← hpay]
@@ -1131,9 +1132,44 @@ theorem taskDst_effect (cfg : Cfg) (w : World) (t : Task)
 def Closed (dst : Map DNode) : Prop :=
   ∀ x, dst.get? x ≠ none → ∀ q ∈ ancestors x, dst.get? q = some .dir
 
-/-- under `-H` no task transfers a member of a source hard-link group -/
+/-- under `-H` no task carries a member of a source hard-link group (sufficient for `NoLinkTasks`) -/
 def NoLinkGroups (cfg : Cfg) (tasks : List Task) : Prop :=
   ∀ t ∈ tasks, ∀ m n, t.payload = .file m n → cfg.hardlinks = true → n ≤ 1
+
+/-- no task of the list goes through the hard-link protocol: no create / update of a regular file
+    with more than one name under `-H` (`isLinkTask`).  Members of link groups that are up to date
+    (planned as `skip`) or deleted are fine. -/
+def NoLinkTasks (cfg : Cfg) (tasks : List Task) : Prop := ∀ t ∈ tasks, isLinkTask cfg t = false
+
+theorem not_linkTask_member {cfg : Cfg} {t : Task} (h : isLinkTask cfg t = false) (hw : t.writes)
+    {m : FileMeta} {n : Nat} (hpay : t.payload = .file m n) (hH : cfg.hardlinks = true) (hn : 1 < n) :
+    False := by
+  unfold isLinkTask at h
+  rcases hw with hc | hu
+  · simp [hc, hpay, hH, hn] at h
+  · simp [hu, hpay, hH, hn] at h
+
+theorem noLinkTasks_of_noLinkGroups {cfg : Cfg} {tasks : List Task} (h : NoLinkGroups cfg tasks) :
+    NoLinkTasks cfg tasks := by
+  intro t ht
+  have key : ∀ m n, t.payload = .file m n → (cfg.hardlinks && decide (1 < n)) = false := by
+    intro m n hpay
+    cases hH : cfg.hardlinks with
+    | false => rfl
+    | true =>
+      have := h t ht m n hpay hH
+      simp; omega
+  unfold isLinkTask
+  split
+  · rename_i m n hact hpay; exact key m n hpay
+  · rename_i m n hact hpay; exact key m n hpay
+  · rfl
+
+theorem noLinkTasks_of_hardlinks_off {cfg : Cfg} (tasks : List Task) (h : cfg.hardlinks = false) :
+    NoLinkTasks cfg tasks := by
+  intro t _
+  unfold isLinkTask
+  split <;> simp [h]
 
 /-- the hypotheses of the run-level refinement, on the plan and the INITIAL destination -/
 structure RunOK (cfg : Cfg) (sfx : String) (tasks : List Task) (dst : Map DNode) : Prop where
@@ -1142,7 +1178,7 @@ structure RunOK (cfg : Cfg) (sfx : String) (tasks : List Task) (dst : Map DNode)
   closed : Closed dst
   parents : ∀ t ∈ tasks, t.writes → ∀ q ∈ ancestors t.rel, dst.get? q = none ∨ dst.get? q = some .dir
   noUpdateDir : ∀ t ∈ tasks, t.act = .update → t.payload ≠ .dir
-  noLinks : NoLinkGroups cfg tasks
+  noLinks : NoLinkTasks cfg tasks
 
 /-- what a task still to be run needs from the current destination `cur` (`dst0`: the destination
     the step lists were compiled against) -/
@@ -1182,7 +1218,7 @@ theorem pending_init {cfg : Cfg} {sfx : String} {tasks : List Task} {dst : Map D
 theorem pending_step {cfg : Cfg} {sfx : String} {tasks : List Task} {w0 : SWorld} {dst0 : Map DNode}
     (hok : PlanOK tasks) (hf : TempFresh sfx tasks w0) {t t' : Task} (ht : t ∈ tasks) (ht' : t' ∈ tasks)
     (hne : t'.rel ≠ t.rel) (w : World)
-    (hl : ∀ m n, t'.payload = .file m n → cfg.hardlinks = true → 1 < n →
+    (hl : t'.writes → ∀ m n, t'.payload = .file m n → cfg.hardlinks = true → 1 < n →
       w.linkMap.find? (·.1 == m.ino) = none)
     (hp : Pending sfx dst0 w.dst t) : Pending sfx dst0 (taskDst cfg w t') t := by
   have E := taskDst_effect cfg w t' hl
@@ -1272,9 +1308,8 @@ theorem pending_fits {cfg : Cfg} {thr : Nat} {sfx : String} {tasks : List Task} 
     rw [he, isPrefix_refl] at this; cases this
   noUpdateDir := h.noUpdateDir t ht
   noLinkMember := by
-    intro m n hpay hH hn
-    have := h.noLinks t ht m n hpay hH
-    omega
+    intro hw m n hpay hH hn
+    exact (not_linkTask_member (h.noLinks t ht) hw hpay hH hn).elim
 
 /-- one task of a run: the step list compiled against the INITIAL destination refines the
     entry-level task on the CURRENT destination -/
@@ -1301,22 +1336,14 @@ theorem run_step {cfg : Cfg} {thr : Nat} (ch : Nat) {sfx : String} {tasks : List
         rw [h1, h2]
 
 theorem taskLists_eq_map {cfg : Cfg} {thr ch : Nat} {sfx : String} {hint : Task → Hint} {dst : Map DNode}
-    {tasks : List Task} (hnl : NoLinkGroups cfg tasks) :
+    {tasks : List Task} (hnl : NoLinkTasks cfg tasks) :
     taskLists cfg thr ch sfx hint dst tasks =
       tasks.map fun t => stepsOfH cfg thr ch sfx (hint t) (dst.get? t.rel) t := by
   unfold taskLists
   congr 1
   rw [List.filter_eq_self]
   intro t ht
-  unfold isLinkTask
-  split
-  · rename_i m n hact hpay
-    cases hH : cfg.hardlinks with
-    | false => rfl
-    | true =>
-      have := hnl t ht m n hpay hH
-      simp; omega
-  · rfl
+  simp [hnl t ht]
 
 /-- the sequential concatenation of the step lists refines the fold of `execTask` -/
 theorem run_refines_aux {cfg : Cfg} {thr : Nat} (ch : Nat) {sfx : String} {tasks : List Task}
@@ -1341,9 +1368,8 @@ theorem run_refines_aux {cfg : Cfg} {thr : Nat} (ch : Nat) {sfx : String} {tasks
       rw [execTask_noFaults_dst]
       have hne : t.rel ≠ u.rel := (List.pairwise_cons.mp hpw).1 u hu
       apply pending_step h.plan h.fresh (hmem u (by simp [hu])) ht hne st.w
-      · intro m n hpay hH hn
-        have := h.noLinks t ht m n hpay hH
-        omega
+      · intro hw m n hpay hH hn
+        exact (not_linkTask_member (h.noLinks t ht) hw hpay hH hn).elim
       · exact hpend u (by simp [hu])
 
 /-- **Refinement of a run** (any task list): the step lists of the tasks, one after the other in
